@@ -349,6 +349,31 @@ def system_phase(chk, pid, modes, n_quick, n_thorough, also=(), directed=()):
                                            "scenario": sc, "plan": plan, "schedule": r["choices"]})[:3000])
     chk.oblige(f"all {len(items)} impl traces accepted by System.step (coqc vm_compute)", rejected == 0,
                f"{rejected} rejected")
+    if pid in ("C03", "C05"):
+        # hypothesis of the completeness theorems (SystemComplete.v): every impl run the harness injected no
+        # fault into, on an acyclic configuration, must satisfy the executable predicate SystemFault.fault_free;
+        # where it does, the theorem's conclusion is re-read from the trace (a disagreement = encoder error)
+        n_ff = bad_ff = bad_concl = 0
+        for (seed, mode, sc, plan, r), a in zip(results, acc):
+            if plan.get("local") or r.get("error") or not a["accepted"]:
+                continue
+            if not (fault_free(plan, r) and acyclic(sc)):
+                continue
+            n_ff += 1
+            tr = r["trace"]
+            if not a["fault_free"]:
+                bad_ff += 1
+                chk.tie_broken("a fault-free impl run does not satisfy SystemFault.fault_free (hypothesis of c03_complete_when_fault_free)",
+                               json.dumps({"seed": seed, "mode": mode, "event": a["first_fault"],
+                                           "raw_event": tr[a["first_fault_index"]] if a["first_fault_index"] is not None else None,
+                                           "scenario": sc, "plan": plan, "schedule": r["choices"]})[:3000])
+            elif any(e["k"] == "results_summary" and e.get("ok") and e["missing"] for e in tr):
+                bad_concl += 1
+                chk.tie_broken("an accepted fault-free trace has missing jobs in its summary: contradicts c03_complete_when_fault_free (encoder error)",
+                               json.dumps({"seed": seed, "mode": mode, "scenario": sc, "plan": plan, "schedule": r["choices"]})[:3000])
+        chk.oblige(f"all {n_ff} fault-free acyclic impl traces satisfy SystemFault.fault_free, the hypothesis of the completeness theorems",
+                   bad_ff == 0 and bad_concl == 0, f"{bad_ff} not fault-free in the model's sense, {bad_concl} contradict the conclusion")
+        chk.notes.setdefault("input_distribution", {})["fault_free_traces"] = n_ff
     chk.notes.setdefault("input_distribution", {})["system"] = dist
     sysrule = ("system cases = generated scenarios (2-8 jobs, random DAG incl. blocked-before-blocker listing, flags, exit codes, "
                "1-3 groups with count/time batching, try-add-blocked, nproc, max-nodes, hooks) run through the REAL jade code in the "
